@@ -4,7 +4,7 @@ from __future__ import annotations
 import itertools, re, fnmatch
 from pyvc.api import *
 
-NAMES = ["sel", "notepad", "android", "organic", "all_x", "anyx", "ofx", "them1", "x-1", "_u", "sel_1", "sel_2", "n1"]
+NAMES = ["sel", "notepad", "android", "organic", "all_x", "anyx", "ofx", "them1", "x-1", "_u", "sel_1", "sel_2", "n1", "not_wanted", "not-x", "and_x", "or-1", "_wanted", "1-x", "of_1"]
 
 
 def tokenize(s):
@@ -81,6 +81,15 @@ def ev_ref(e, env):
     return all(vals) if e[1] == "and" else any(vals)
 
 
+def ref_names(e):
+    """the detection names a reference tree depends on"""
+    if e[0] == "id":
+        return {e[1]}
+    if e[0] == "sel":
+        return set(e[2])
+    return set().union(*(ref_names(x) for x in e[1:]))
+
+
 def ev_tree(c, env):
     """evaluate a postprocessed pySigma condition tree: leaves are field==marker conditions named by the detection"""
     from sigma.conditions import ConditionOR, ConditionAND, ConditionNOT, ConditionFieldEqualsValueExpression
@@ -97,15 +106,15 @@ def ev_tree(c, env):
     return all(vals) if isinstance(c, ConditionAND) else any(vals)
 
 
-def shapes(n):
+def base_shapes(n):
     """all expression shapes with n operands (operators and/or, optional not on operands and groups, explicit parentheses)"""
     if n == 1:
         yield "{}"
         yield "not {}"
         return
     for k in range(1, n):
-        for l in shapes(k):
-            for r in shapes(n - k):
+        for l in base_shapes(k):
+            for r in base_shapes(n - k):
                 for op in ("and", "or"):
                     yield f"{l} {op} {r}"
                     if k > 1:
@@ -115,26 +124,63 @@ def shapes(n):
                         yield f"{l} {op} not ({r})"
 
 
+def shapes(n):
+    """base shapes plus repeated negation: on the whole expression, on the first and on the last operand"""
+    yield from base_shapes(n)
+    if n == 1:
+        yield from ("not not {}", "not (not {})", "not not not {}")
+        return
+    for sh in base_shapes(n):
+        yield f"not not ({sh})"
+    for sh in base_shapes(n - 1):
+        for op in ("and", "or"):
+            yield f"not not {{}} {op} {sh}"
+            yield f"{sh} {op} not not {{}}"
+            yield f"{sh} {op} not (not {{}})"
+
+
+OPERANDS = NAMES + ["1 of sel*", "all of sel_*", "any of *1", "1 of them", "all of them", "1 of _*", "1 of n*", "all of *x*", "1 of nomatch*", "1 of sel_*_1", "1 of not*", "all of *-*"]
+
+
 @register
 class C02Bounded(Bounded):
     id = "C02.bounded.grammar"
     props = ("C02",)
 
     def run(self, tier, seed):
+        from pyvc.api import fork_map
+        nmax = 3 if tier == "quick" else 4
+        work = [(n, sh) for n in range(1, nmax + 1) for sh in sorted(set(shapes(n)))]
+        chunks = [work[i::16] for i in range(16)]
+        outs = fork_map(lambda ch: self.run_chunk(tier, seed, ch), chunks)
+        ev = sum(o["ev"] for o in outs)
+        nontriv = sum(o["nontriv"] for o in outs)
+        seen, fails, samples, firsts = {}, [], [], {}
+        for o in outs:
+            for k, v in o["seen"].items():
+                seen[k] = seen.get(k, 0) + v
+            for k, f in o["firsts"].items():
+                if k not in firsts or f["input"] < firsts[k]["input"]:
+                    firsts[k] = f
+            samples += o["samples"]
+        fails = [firsts[k] for k in sorted(firsts)]
+        samples = sorted(samples, key=lambda x: x["expression"])[:4]
+        return {"evaluations": ev, "distinct_nontrivial": nontriv, "failures": fails, "failure_counts": seen,
+                "bound": f"all expression shapes with <= {nmax} operands (incl. repeated negation) x operands from {len(OPERANDS)} (names incl. keyword-prefixed, digit, dash, underscore; selectors with leading / trailing / inner wildcards, them), all truth assignments of the names the expression depends on (<= 8 names; beyond: all-false, all-true, one-hot, one-cold and 64 random assignments)",
+                "rule": "distinct expressions; non-trivial = accepted by the parser", "samples": samples, "exhaustive": False}
+
+    def run_chunk(self, tier, seed, work):
         import random
         from sigma.rule import SigmaDetections, SigmaDetection
         from sigma.conditions import SigmaCondition
         from sigma.exceptions import SigmaError
-        rnd = random.Random(seed)
         dets = SigmaDetections({n: SigmaDetection.from_definition({"f": n}) for n in NAMES}, ["sel"])
-        operands = NAMES + ["1 of sel*", "all of sel_*", "any of *1", "1 of them", "all of them", "1 of _*", "1 of n*", "all of *x*", "1 of nomatch*", "1 of sel_*_1"]
-        nmax = 3 if tier == "quick" else 4
+        operands = OPERANDS
         ev = nontriv = 0
-        seen, fails, samples = {}, [], []
-        envs = None
-        for n in range(1, nmax + 1):
-            shp = sorted(set(shapes(n)))
-            for sh in shp:
+        seen, firsts, samples = {}, {}, []
+        if True:
+            for n, sh in work:
+                rnd = random.Random(f"{seed}:{sh}")
                 combos = list(itertools.product(operands, repeat=n))
                 if len(combos) > (60 if tier == "quick" else 400):
                     combos = rnd.sample(combos, 60 if tier == "quick" else 400)
@@ -150,24 +196,28 @@ class C02Bounded(Bounded):
                     except SigmaError as e:
                         kind = "reject:" + ("not-prefix" if re.search(r"\bnot[a-z]", expr) else "other")
                         seen[kind] = seen.get(kind, 0) + 1
-                        if seen[kind] == 1:
-                            fails.append({"text": ("KNOWN-D4 " if kind.endswith("not-prefix") else "") + f"condition {expr!r} is rejected: {e}", "input": expr})
+                        if kind not in firsts or expr < firsts[kind]["input"]:
+                            firsts[kind] = ({"text": f"condition {expr!r} is rejected: {e}", "input": expr})
                         continue
                     nontriv += 1
-                    used = sorted(set(re.findall(r"[A-Za-z0-9_\-]+", expr)) & set(NAMES)) or NAMES[:1]
+                    used = sorted(ref_names(ref))
+                    if len(used) <= 8:
+                        assignments = (dict(zip(used, bits)) for bits in itertools.product((False, True), repeat=len(used)))
+                    else:       # 'them' and wide patterns: the all-false / all-true / one-hot / one-cold assignments and 64 random ones
+                        fixed = [{n: False for n in used}, {n: True for n in used}] + [{n: n == m for n in used} for m in used] + [{n: n != m for n in used} for m in used]
+                        assignments = itertools.chain(fixed, ({n: rnd.random() < 0.5 for n in used} for _ in range(64)))
                     bad = None
-                    for bits in itertools.islice(itertools.product((False, True), repeat=len(NAMES)), 0, None, max(1, 2 ** len(NAMES) // 64)):
-                        env = dict(zip(NAMES, bits))
+                    for part in assignments:
+                        env = {n: False for n in NAMES}
+                        env.update(part)
                         if ev_tree(tree, env) != ev_ref(ref, env):
                             bad = env
                             break
                     if bad is not None:
                         kind = "value:" + ("not-prefix" if re.search(r"\bnot[a-z]", expr) else "other")
                         seen[kind] = seen.get(kind, 0) + 1
-                        if seen[kind] == 1:
-                            fails.append({"text": ("KNOWN-D4 " if kind.endswith("not-prefix") else "") + f"condition {expr!r} evaluates to {ev_tree(tree, bad)} instead of {ev_ref(ref, bad)} under {[k for k, v in bad.items() if v]}", "input": expr})
+                        if kind not in firsts or expr < firsts[kind]["input"]:
+                            firsts[kind] = ({"text": f"condition {expr!r} evaluates to {ev_tree(tree, bad)} instead of {ev_ref(ref, bad)} under {[k for k, v in bad.items() if v]}", "input": expr})
                     elif len(samples) < 4 and n == 3:
                         samples.append({"expression": expr, "reference": str(ref)[:160]})
-        return {"evaluations": ev, "distinct_nontrivial": nontriv, "failures": fails, "failure_counts": seen,
-                "bound": f"all expression shapes with <= {nmax} operands x operands from {len(operands)} (names incl. keyword-prefixed, digit, dash, underscore; selectors with leading / trailing / inner wildcards, them), 64 truth assignments each",
-                "rule": "distinct expressions; non-trivial = accepted by the parser", "samples": samples, "exhaustive": False}
+        return {"ev": ev, "nontriv": nontriv, "seen": seen, "firsts": firsts, "samples": samples[:4]}
